@@ -16,6 +16,7 @@ from typing import Any
 import core_world as cw
 import corecheck as cc
 import tlc
+import vtasks
 from checklib import Ctx
 
 FORMULAS = ["SuccessHasResult", "FailedHasException", "NoValueBeforeFinal", "ClientSeesStoredOutcome",
@@ -37,8 +38,13 @@ def signature(r: dict[str, Any], step: int, formula: str) -> dict[str, Any]:
 UNICODE = ["", "a", "é", "日本語", "\u0000x", "emoji \U0001F600", "quote\"'\\", "line\nbreak", "__pynenc__", " "]
 
 
+ENUMS = [vtasks.VPriority.HIGH, vtasks.VPriority.LOW, vtasks.VChannel.SMS, vtasks.VChannel.MAIL, vtasks.VKind.A, vtasks.VKind.B]
+
+
 def gen_scalar(rng: random.Random, domain: str) -> Any:
-    k = rng.randrange(8)
+    k = rng.randrange(9)
+    if k == 8:
+        return rng.choice(ENUMS)
     if k == 0:
         return None
     if k == 1:
@@ -59,6 +65,9 @@ def gen_scalar(rng: random.Random, domain: str) -> Any:
 def gen_value(rng: random.Random, depth: int, domain: str) -> Any:
     if depth <= 0 or rng.random() < 0.35:
         return gen_scalar(rng, domain)
+    if rng.random() < 0.15:
+        # a flat list of scalars, enum members among them (IntEnum / StrEnum ARE ints / strs)
+        return [rng.choice(ENUMS + [0, 3, "x", "sms", None, 1.5, True]) for _ in range(rng.randrange(1, 5))]
     if rng.random() < 0.5:
         return [gen_value(rng, depth - 1, domain) for _ in range(rng.randrange(0, 4))]
     return {rng.choice(UNICODE + ["k1", "k2", "key with space"]): gen_value(rng, depth - 1, domain)
@@ -97,8 +106,11 @@ def value_plan(rng: random.Random, domain: str, threshold: int, count: int) -> t
             args = [["m" * n], [k, "two", n], [], [{"detail": "z" * n}]][(k // 8) % 4]
             if (domain == "json" or etype == "RetryError") and args and isinstance(args[0], dict):
                 args = ["z" * n, 7]
+            if domain == "json" and k == count - 1:
+                # an exception the configured serializer cannot store: the failure must not be published without it
+                etype, args = "ValueError", ["__unencodable__"]
             outcomes[name], values[name] = ["fail"], [[etype, args]]
-            classes[name] = f"exception:{etype}:size~{n - threshold:+d}:nargs={len(args)}"
+            classes[name] = f"exception:{etype}:size~{n - threshold:+d}:nargs={len(args)}" if args != ["__unencodable__"] else "exception:unencodable"
     return outcomes, values, classes
 
 
